@@ -301,3 +301,44 @@ class Check:
             self.pid, self.tier, n_ok, n_ob, cov.get("evaluations", 0), len(self.violations), wall))
         sys.stdout.flush()
         return 1 if self.violations else 0
+
+
+# ---------------------------------------------------------------- hook coverage (source scan)
+
+HOOKED_FILES = ["src/price_level/level.rs", "src/price_level/statistics.rs", "src/price_level/order_queue.rs", "src/utils/uuid.rs"]
+_SHARED = re.compile(r"std::sync::atomic::\{?\s*Atomic|\bcrossbeam(::|_)|\bdashmap::|\bMutex\b|\bRwLock\b|\bUnsafeCell\b|\bstatic\s+mut\b|"
+                     r"\bthread_local!|\bRefCell\b|\bCell<|\bOnceLock\b|\bOnceCell\b|\blazy_static!|\bparking_lot\b|\bAtomic(Bool|I64|I32|U32|U8|Ptr|Isize)\b|"
+                     r"\bstd::sync::mpsc\b|\bCondvar\b|\bunsafe\b")
+
+
+def _strip_rust(src):
+    """drop the trailing #[cfg(test)] module, comments and string literals (line structure kept)"""
+    cut = src.find("#[cfg(test)]")
+    if cut >= 0:
+        src = src[:cut]
+    src = re.sub(r"/\*.*?\*/", lambda m: "\n" * m.group(0).count("\n"), src, flags=re.S)
+    src = re.sub(r"//[^\n]*", "", src)
+    src = re.sub(r'"(?:[^"\\\n]|\\.)*"', '""', src)
+    return src
+
+
+def hook_coverage():
+    """Every shared-memory primitive used by the modelled files must be the cfg-switched one (so that the scheduler and the
+    trace acceptance see every shared access).  Returns a list of offending 'file:line: text'."""
+    bad = []
+    for rel in HOOKED_FILES:
+        path = os.path.join(REPO, rel)
+        try:
+            lines = _strip_rust(open(path).read()).split("\n")
+        except OSError:
+            bad.append(rel + ": missing")
+            continue
+        prev = ""
+        for i, ln in enumerate(lines, 1):
+            t = ln.strip()
+            if not t:
+                continue
+            if _SHARED.search(t) and "cfg(not(pricelevel_verif))" not in prev and "cfg(not(pricelevel_verif))" not in t:
+                bad.append("%s:%d: %s" % (rel, i, t[:100]))
+            prev = t
+    return bad
